@@ -462,6 +462,124 @@ def suite_sequential(ctx: Ctx) -> SuiteResult:
     return res
 
 
+class BufferBoom(Exception):
+    """Raised by the recording buffer's add() at a scripted call."""
+
+
+def suite_failing_buffer(ctx: Ctx) -> SuiteResult:
+    """A user buffer whose add() raises in the middle of a hand-over (a dict buffer given a sample with the
+    wrong keys does): the timestamps must stay paired with the samples that did reach the buffer."""
+    res = SuiteResult("queue-failing-buffer", exhaustive=True,
+                      rule="queue sizes {None, 1, 2, 3, 5} x 0-5 collected samples x the add() call that raises "
+                           "(every position, and none): after the failed update, count_data_added_since / the "
+                           "pickled timestamps / len cover exactly the samples that reached the buffer; then two "
+                           "more samples and a normal update; compared with Queue.User.updateF; non-trivial = the "
+                           "exception was raised with at least one sample delivered before it")
+    di, _, DataUsersDict = _mods()
+    RB = recording_buffer_class()
+
+    class FailingBuffer(RB):
+        fail_at = None          # index (within the current update) of the add() that raises
+
+        def __init__(self, m):
+            super().__init__(m)
+            self.calls_in_update = 0
+
+        def add(self, data):
+            k = self.calls_in_update
+            self.calls_in_update += 1
+            if self.fail_at is not None and k == self.fail_at:
+                raise BufferBoom(f"add #{k}")
+            super().add(data)
+
+    for m in [None, 1, 2, 3, 5]:
+        for n in range(0, 6):
+            for k in list(range(0, n + 1)) + [None]:
+                case = {"failing_buffer": {"m": m, "n": n, "k": k}}
+                clock = FakeClock()
+                lines = [f"queue reset max={show_max(m)} names=[a]", "queue acquire a"]
+                impl = ["ok", "ok"]
+                vs: list[Violation] = []
+                with Patched(clock):
+                    buf = FailingBuffer(m)
+                    users = DataUsersDict.from_data_buffers({"a": buf})
+                    user = users["a"]
+                    col = users.data_collectors_dict.acquire("a")
+                    stamps: dict[int, F] = {}
+                    x = 0
+
+                    def collect():
+                        nonlocal x
+                        clock.now += F(1, 2)
+                        k0 = len(clock.reads)
+                        col.collect(x)
+                        rd = clock.reads[k0:]
+                        stamps[x] = rd[-1] if rd else clock.now
+                        lines.append(f"queue collect {x} t={show_frac(stamps[x])}")
+                        impl.append("ok")
+                        x += 1
+                    for _ in range(n):
+                        collect()
+                    n0 = len(buf.log)
+                    buf.fail_at, buf.calls_in_update = k, 0
+                    raised = False
+                    try:
+                        user.update()
+                    except BufferBoom:
+                        raised = True
+                    buf.fail_at = None
+                    batch = buf.log[n0:]
+                    lines.append(f"queue updatef {k if k is not None else 99}")
+                    impl.append(show_list(batch) + (" raised" if raised else ""))
+
+                    def observe(tag):
+                        delivered = list(buf.log)
+                        recent = keep(m, [stamps[d] for d in delivered])
+                        c = user.count_data_added_since(float("-inf"))
+                        lines.append("queue count -1000000")
+                        impl.append(str(c))
+                        if c != len(recent):
+                            vs.append(Violation("queue:failing-buffer:count",
+                                                f"{tag}: count_data_added_since(-inf) = {c} but {len(delivered)} sample(s) "
+                                                f"reached the buffer (queue size {m}): timestamps are no longer paired "
+                                                f"with delivered samples", case))
+                        p = fresh_path()
+                        buf.calls_in_update = 0
+                        user.save_state(p)
+                        with open(p / "timestamps.pkl", "rb") as f:
+                            ts = [F(t) for t in pickle.load(f)]
+                        shutil.rmtree(p, ignore_errors=True)
+                        delivered = list(buf.log)
+                        want = keep(m, [stamps[d] for d in delivered])
+                        lines.append("queue save")
+                        impl.append("[] " + show_list(ts, show_frac) if True else "")
+                        if ts != want:
+                            vs.append(Violation("queue:failing-buffer:timestamps",
+                                                f"{tag}: pickled timestamps {ts}, the stamps of the delivered samples "
+                                                f"{delivered} are {want}", case))
+                    observe("after the failed update" if raised else "after the update")
+                    collect(); collect()
+                    n1 = len(buf.log)
+                    buf.calls_in_update = 0
+                    user.update()
+                    lines.append("queue update")
+                    impl.append(show_list(buf.log[n1:]))
+                    observe("after two more samples and a normal update")
+                res.evaluations += 1
+                res.hit("raised" if raised else "not-raised")
+                if raised and batch:
+                    res.nontrivial.add((m, n, k))
+                res.violations += vs
+                if ctx.driver is not None:
+                    for i, (ln, a, b) in enumerate(zip(lines, impl, ctx.driver.batch(lines))):
+                        if a != b:
+                            res.disagreements.append(Disagreement(
+                                "queue-failing-buffer", f"line {i} `{ln}`: implementation {a!r}, model {b!r}", case))
+                            break
+    res.sample(case)
+    return res
+
+
 def suite_malformed(ctx: Ctx) -> SuiteResult:
     res = SuiteResult("queue-malformed",
                       rule="negative max_queue_size (ValueError on both sides), unknown names, "
@@ -842,6 +960,13 @@ def search(ctx: Ctx, disagreements, broken):
 def replay(ctx: Ctx, payload: dict) -> SuiteResult:
     res = SuiteResult("replay")
     case = payload.get("case") or payload.get("first_disagreement")
+    if "failing_buffer" in case:
+        r = suite_failing_buffer(ctx)
+        want = case["failing_buffer"]
+        res.violations = [v for v in r.violations if v.case.get("failing_buffer") == want]
+        res.disagreements = [d for d in r.disagreements if d.case.get("failing_buffer") == want]
+        res.evaluations = 1
+        return res
     if case.get("kind") == "conc":
         vs, d, r = run_conc(case, ctx.driver)
         print("lock order:", r.lock_order)
@@ -871,7 +996,7 @@ if __name__ == "__main__":
                 "Pamiq.LockObj.lock_atomic", "Pamiq.LockObj.lock_atomic_final",
                 "Pamiq.Queue.atomicCall_collect", "Pamiq.Queue.atomicCall_update",
                 "Pamiq.Queue.collect_update_atomic"],
-            suites=[suite_sequential, suite_malformed, suite_conc_lock_orders, suite_conc_lines,
+            suites=[suite_sequential, suite_failing_buffer, suite_malformed, suite_conc_lock_orders, suite_conc_lines,
                     suite_conc_random],
             search=search, replay=replay,
             assumptions=[
